@@ -481,7 +481,7 @@ class CompoundInterval(Location):
         self.length = length
 
         self.start = self._starts[0]
-        self.end = self._ends[-1]
+        self.end = max(self._ends)
 
     @staticmethod
     def _sort_starts_ends(
